@@ -6461,12 +6461,21 @@ fn eval_expr(
                 env.push_expr_to_eval(ExpressionState::NotEvaluated, Rc::clone(scrutinee));
             }
             ExpressionState::PartiallyEvaluated(_) => {
+                let scrutinee_value = env.current_frame().evalled_values.last().cloned();
+
                 env.push_expr_to_eval(
                     ExpressionState::EvaluatedSubexpressions,
                     Rc::clone(&outer_expr),
                 );
-                eval_match_cases(env, expr_value_is_used, &scrutinee.position, cases)
-                    .map_err(|e| (RestoreValues(vec![]), e))?;
+                if let Err(e) =
+                    eval_match_cases(env, expr_value_is_used, &scrutinee.position, cases)
+                {
+                    // No block was entered: drop the continuation
+                    // again and put the scrutinee back, so resuming
+                    // sees the stack as it was.
+                    env.current_frame_mut().exprs_to_eval.pop();
+                    return Err((RestoreValues(scrutinee_value.into_iter().collect()), e));
+                }
             }
             ExpressionState::EvaluatedSubexpressions => {
                 env.current_frame_mut().bindings.pop_block();
@@ -6486,13 +6495,18 @@ fn eval_expr(
                     Rc::clone(&outer_expr),
                 );
 
-                eval_if(
+                if let Err(e) = eval_if(
                     env,
                     expr_value_is_used,
                     &condition.position,
                     then_body,
                     else_body.as_ref(),
-                )?;
+                ) {
+                    // No block was entered: drop the continuation
+                    // again, so resuming sees the stack as it was.
+                    env.current_frame_mut().exprs_to_eval.pop();
+                    return Err(e);
+                }
             }
             ExpressionState::EvaluatedSubexpressions => {
                 env.current_frame_mut().bindings.pop_block();
